@@ -307,6 +307,13 @@ fn with_trail(rng: &mut Rng, p: String, allowed: bool) -> String {
 }
 
 fn gen_text(rng: &mut Rng) -> String {
+    if rng.chance(1, 20) {
+        // a large content: sizes around the usual buffer sizes (4 KiB, 8 KiB, 64 KiB), last bytes distinctive
+        let n = *rng.pick(&[4095usize, 4096, 4097, 8191, 8192, 8193, 20000, 65535, 65536, 65537]);
+        let mut s: String = "0123456789abcdef".chars().cycle().take(n.saturating_sub(4)).collect();
+        s.push_str("é\n~");
+        return s;
+    }
     match rng.below(6) {
         0 => String::new(),
         1 | 2 => crate::pools::value(rng),
@@ -316,7 +323,7 @@ fn gen_text(rng: &mut Rng) -> String {
     }
 }
 fn gen_bytes(rng: &mut Rng) -> Vec<u8> {
-    let n = rng.below(9);
+    let n = if rng.chance(1, 20) { *rng.pick(&[4096usize, 8191, 8192, 8193, 65536, 65537]) } else { rng.below(9) };
     (0..n).map(|_| if rng.chance(1, 3) { *rng.pick(&[0u8, 0x80, 0xff, 0xc3, 0x28, 0x0a]) } else { rng.below(256) as u8 }).collect()
 }
 
